@@ -180,6 +180,21 @@ def updater(chk: Check, repo: Repo) -> None:
         reads = [n for n in c2.nodes if n.kind == "stmt" and n.ast is not None and any(method_name(c) == "read_state" for c in calls(n.ast))]
         ok = len(reads) == 1 and "self._semaphore" in enclosing_with_items(reads[0].withs)
     chk.ob("read-inside-semaphore", f.site(), ok, "the read issued for a tracker is inside `async with self._semaphore`", key="updater|semaphore-scope")
+    # only the bus read itself may be shielded from cancellation: a shielded wait for an idle bus would outlive a
+    # cancelled tracker (read while disconnected / for an unregistered value / more than two reads in progress)
+    rv_param = f.node.args.args[1].arg
+    ok_sh = rs is not None
+    detail = "read_state_mutex not found"
+    if rs is not None:
+        c2 = CFG(rs.node)
+        shields = [c for n in c2.nodes if n.ast is not None and n.kind == "stmt" for c in calls(n.ast) if call_name(c) == "asyncio.shield"]
+        args = [ast.unparse(c.args[0]) if c.args else "" for c in shields]
+        joins = [n for n in c2.nodes if n.kind == "stmt" and n.ast is not None and any(call_name(c).endswith("outgoing_queue.join") for c in calls(n.ast))]
+        ok_sh = all(a.startswith(f"{rv_param}.read_state(") for a in args) and len(shields) <= 1 and len(joins) == 1 and "self._semaphore" in enclosing_with_items(joins[0].withs) and not any(call_name(c) == "asyncio.shield" for c in calls(joins[0].ast))
+        awaited_helpers = [ast.unparse(a.value) for n in c2.nodes if n.ast is not None and n.kind == "stmt" for a in ast.walk(n.ast) if isinstance(a, ast.Await) and isinstance(a.value, ast.Call) and isinstance(a.value.func, ast.Name)]
+        ok_sh = ok_sh and not awaited_helpers
+        detail = f"shielded: {args}; bus-idle wait awaited directly inside the semaphore: {len(joins) == 1}; awaited local helpers: {awaited_helpers}"
+    chk.ob("only-the-read-is-shielded", f.site(), ok_sh, detail, key="updater|shield-scope")
     other_reads = [(g.qualname) for g in repo.all_functions() if g.module.name == M for c in calls(g.node) if method_name(c) == "read_state" and not g.qualname.endswith("read_state_mutex")]
     chk.ob("read-inside-semaphore", f.site(), not other_reads, f"other read_state call sites in the updater: {other_reads}", key="updater|other-reads")
     trk = [c for c in calls(f.node) if call_name(c) == "_StateTracker"]
@@ -202,8 +217,42 @@ def updater(chk: Check, repo: Repo) -> None:
     chk.ob("at-most-two-reads", ini.site(), len(wsem) == 1, "the semaphore is created once", key="updater|semaphore-slot")
 
 
+def update_notification(chk: Check, repo: Repo) -> None:
+    """Every successfully decoded state telegram restarts an 'expire' interval — also one repeating the current value."""
+    fi = repo.func("xknx.remote_value.remote_value", "RemoteValue.process")
+    chk.unit(fi)
+    cfg = CFG(fi.node)
+    exc = ExcTable(repo)
+    dest = Obj("GroupAddress", "ga")
+    p0 = fi.node.args.args[1].arg
+    for value_cell, always in product(("unset", "same", "changed"), (False, True)):
+        new = Obj("Value", "new")
+        def cm(c, env):
+            n = call_name(c)
+            if n == "self.from_knx":
+                return [Outcome(None, new)]
+            if n == "self.group_addresses":
+                return [Outcome(None, (dest,))]
+            if n.endswith("state_updater.update_received"):
+                return [Outcome("UPDATE_RECEIVED", None)]
+            if n == "self.after_update_cb":
+                return [Outcome("AFTER_UPDATE_CB", None)]
+            if n.startswith("logger."):
+                return [Outcome(None, None)]
+            return None
+        am = AbsMachine(cfg, exc, cm)
+        am.isinstance_fn = class_isinstance(repo)
+        env = {f"{p0}.destination_address": dest, f"{p0}.payload": Obj("GroupValueWrite", "p", (("value", Obj("DPTArray", "raw")),)), f"{p0}.decoded_data": None, "self.dpt_class": None,
+               "self._value": None if value_cell == "unset" else (new if value_cell == "same" else Obj("Value", "old")), "always_callback": always, "self.after_update_cb": None}
+        paths = Explorer(cfg, repo, am.step).run(cfg.entry, [], env)
+        got = {(tuple(t for t in p.env.get("trace", ())), p.env.get("#ret")) for p in paths}
+        want = {(("UPDATE_RECEIVED",), True)}
+        chk.ob("every-decoded-telegram-notifies-updater", fi.site(), got == want, f"stored value {value_cell}, always_callback={always}: {sorted(map(str, got))}; reference {sorted(map(str, want))}", key=f"process-notify|{value_cell}|{always}")
+
+
 def run(chk: Check, repo: Repo) -> None:
     tracker(chk, repo)
     updater(chk, repo)
+    update_notification(chk, repo)
     chk.rule("E7 decision tables (abstract path enumeration) of the tracker and updater methods; E6 task-slot discipline; E4 lexical semaphore scope; E8 folded semaphore value")
     chk.assume("read times (once per (re)connection, every/after an interval) are virtual-time histories and are not decided; only the control structure is")
